@@ -1,4 +1,5 @@
 import functools
+import io
 import typing as t
 import warnings
 from enum import Enum
@@ -7,6 +8,7 @@ from pathlib import Path
 from ml_pipeline_engine.artifact_store.enums import DataFormat
 from ml_pipeline_engine.artifact_store.errors import ArtifactAlreadyExists
 from ml_pipeline_engine.artifact_store.errors import ArtifactDoesNotExist
+from ml_pipeline_engine.artifact_store.serializers import Serializer
 from ml_pipeline_engine.artifact_store.serializers import serializer_factory
 from ml_pipeline_engine.artifact_store.store.base import SerializedArtifactStore
 from ml_pipeline_engine.types import NodeId
@@ -47,6 +49,16 @@ class FileSystemArtifactStore(SerializedArtifactStore):
 
         return path
 
+    @staticmethod
+    def _open(path: Path, serializer: Serializer, mode: str) -> t.IO:
+        """
+        Open the artifact file in the mode the serializer works with (text for JSON, binary for pickle)
+        """
+        if isinstance(serializer.get_default_io(), io.TextIOBase):
+            return path.open(mode, encoding='utf-8')  # noqa: ASYNC101
+
+        return path.open(f'{mode}b')  # noqa: ASYNC101
+
     def _get_glob(self, node_id: NodeId) -> t.List[Path]:
         return list(Path(self._ensure_dir()).glob(f'{node_id}.*'))
 
@@ -55,8 +67,10 @@ class FileSystemArtifactStore(SerializedArtifactStore):
         if len(self._get_glob(node_id)):
             raise ArtifactFileAlreadyExists(f'Artifact file for {node_id} already exists')
 
-        with Path(self._ensure_dir() / f'{node_id}.{fmt.value}').open('wb') as file:  # noqa: ASYNC101
-            serializer_factory.from_data_format(fmt).dump(data, file)
+        serializer = serializer_factory.from_data_format(fmt)
+
+        with self._open(self._ensure_dir() / f'{node_id}.{fmt.value}', serializer, 'w') as file:
+            serializer.dump(data, file)
 
     @dont_use_for_prod
     async def load(self, node_id: NodeId) -> NodeResultT:
@@ -65,5 +79,7 @@ class FileSystemArtifactStore(SerializedArtifactStore):
         if not len(glob):
             raise ArtifactFileDoesNotExist(f'Artifact file for {node_id} does not exist')
 
-        with Path(glob[0]).open('rb') as file:  # noqa: ASYNC101
-            return serializer_factory.from_extension(glob[0].suffix[1:]).load(file)
+        serializer = serializer_factory.from_extension(glob[0].suffix[1:])
+
+        with self._open(glob[0], serializer, 'r') as file:
+            return serializer.load(file)
